@@ -1026,16 +1026,19 @@ class ModelBuilder:
                 if match:
                     amount = int(match.group(1))
                     unit = match.group(2)
-                    if unit == "d":
-                        end_date = start_date + relativedelta(days=amount)
-                    elif unit == "w":
-                        end_date = start_date + relativedelta(weeks=amount)
-                    elif unit == "m":
-                        end_date = start_date + relativedelta(months=amount)
-                    elif unit == "y":
-                        end_date = start_date + relativedelta(years=amount)
-                    else:
-                        end_date = start_date
+                    try:
+                        if unit == "d":
+                            end_date = start_date + relativedelta(days=amount)
+                        elif unit == "w":
+                            end_date = start_date + relativedelta(weeks=amount)
+                        elif unit == "m":
+                            end_date = start_date + relativedelta(months=amount)
+                        elif unit == "y":
+                            end_date = start_date + relativedelta(years=amount)
+                        else:
+                            end_date = start_date
+                    except (OverflowError, ValueError) as err:
+                        raise ValueError(f"Project duration +{duration_str} is out of range") from err
                     project["end"] = end_date
             if project["end"] is None:
                 # Limits, scoreboards and the scheduler all need the project interval
